@@ -115,6 +115,8 @@ pub struct ExecResult {
     pub events: u64,
     pub cover: Vec<(String, u64)>,
     pub notes: Vec<String>,
+    /// violations of other properties that were noted without stopping the execution
+    pub foreign: Vec<String>,
     pub panics: Vec<(usize, String)>,
     pub timed_out: bool,
     pub trace: Option<Vec<String>>,
@@ -144,11 +146,12 @@ pub fn release_world(c: &Ctx, w: &'static World) {
     }
 }
 
-pub fn run_one(prog: Program, prefix: &[u8], trace: bool) -> ExecResult {
+pub fn run_one(prog: Program, prefix: &[u8], trace: bool, focus: Option<&str>) -> ExecResult {
     let mut m = Monitor::new(trace);
     m.quarantine_on = prog.quarantine;
     m.check_state_points = prog.state_points;
     m.claim = prog.claim;
+    m.focus = focus.map(|s| s.to_string());
     monitor::install(m);
 
     let collector = cv::ebr::Collector::new();
@@ -234,6 +237,7 @@ pub fn run_one(prog: Program, prefix: &[u8], trace: bool) -> ExecResult {
     res.outcome = m.outcome;
     res.events = m.events;
     res.notes = m.notes.clone();
+    res.foreign = m.foreign.iter().map(|(p, k)| format!("{}:{}", p, k)).collect();
     res.trace = m.trace.clone();
     let mut cover: Vec<(String, u64)> = m.cover.iter().map(|(k, v)| (k.to_string(), *v)).collect();
     cover.sort();
